@@ -1156,6 +1156,13 @@ func c14Corpus() []*c14Plan {
 		nw := cat(rep(1, 10000), rep(1, 10000))
 		out = append(out, mk(old, nw, c14Sess{Evs: []c14Ev{{W: 10000}}}, one(10000)))
 	}
+	// a direct write of two windows + 100 bytes followed by a small write: the processor
+	// returns early from the big write, its last 100 bytes are buffered and share a window
+	// with the next write
+	{
+		old := rep(5, 2*ovBuf+300)
+		out = append(out, mk(old, append([]byte(nil), old...), c14Sess{Evs: []c14Ev{{W: 2*ovBuf + 100}, {W: 200}}}))
+	}
 	return out
 }
 
@@ -1170,7 +1177,7 @@ func runC14(c *Ctx) error {
 			idx++
 		}
 	}
-	n := c.N(44, 450)
+	n := c.N(32, 450)
 	if c.Tier == "search" {
 		n = 500
 	}
